@@ -13,6 +13,7 @@ TECHNIQUE = (
     "bounded-exhaustive exploration of get_citations(): all fragment sequences <= depth k, all <=2 "
     "fragment edits and <=2 character edits of template documents, plain and markup mode, three tokenizers"
 )
+TECHNIQUE += "; " + 'also: generated legal mark-up cleaned with three step lists in both orders within one execution, transform-sensitive fragments (typographic spaces, decomposed accents, ligatures), post-citation products, documents beyond 64 KiB; a subset of shards again under python -O'
 RULE = (
     "documents = all concatenations of <=k fragments of A0 (plain) / decorated fragments (markup); all "
     "fragment-edit and character-edit mutations of 8 templates within the edit bound; every <= 3-fragment document containing a transform-sensitive fragment (typographic spaces, decomposed accents, ligatures, full-width digits); complete slot product of generated legal mark-up (C19's documents), each cleaned with 3 step lists forwards and backwards in one execution. distinct = distinct "
